@@ -228,3 +228,29 @@ Fixpoint arr_chain (j : nat) : node :=
 Definition arr_prog (k : nat) : node :=
   Run [arr_chain (k - 1); Push (SInt 1%Z); Prim 1084 2 1; Mod MDip [(Sig 1 0 0 0, Prim 4 1 0)]].
 Definition arr_verdict (k : nat) : bool := match root_sig (arr_prog k) with Some _ => true | None => false end.
+
+(* ------------------------------------------------------------------ (e) range and rerank (commits 9313bfc, 13d1954) *)
+Open Scope N_scope.
+(** monadic/mod.rs range_impl: the element count of `⇡ dims` (a list of |dims| numbers per cell) is
+    validated as dims ++ [rank] with 8-byte elements.  BEFORE 9313bfc a zero dimension returned the
+    empty result without validating, and the caller built a shape out of the other dimensions *)
+Definition has_zero (dims : list N) : bool := existsb (fun d => d =? 0) dims.
+Definition range_len_pre (dims : list N) (L : N) : vres :=
+  match dims with [] => Accept 1 | _ =>
+    if has_zero dims then Accept 0 else validate_size 8 (dims ++ [N.of_nat (length dims)]) L end.
+Definition range_len (dims : list N) (L : N) : vres :=
+  match dims with [] => Accept 1 | _ =>
+    match validate_size 8 (dims ++ [N.of_nat (length dims)]) L with
+    | Reject => Reject
+    | Accept n => if has_zero dims then Accept 0 else Accept n
+    end end.
+
+(** dyadic/mod.rs rerank with a non-negative rank on an array of [len] axes: the number of axes of
+    length 1 it prepends one by one (None = refused).  BEFORE 13d1954 there was no bound *)
+Definition MAX_DIMS : N := 99.
+Definition rerank_prepends_pre (rank len : N) : option N :=
+  if len <=? rank then Some (rank - len + 1) else Some 0.
+Definition rerank_prepends (rank len : N) : option N :=
+  if len <=? rank then (if MAX_DIMS <=? rank then None else Some (rank - len + 1)) else Some 0.
+Definition ocode (o : option N) : N := match o with None => 0 | Some n => n + 1 end.
+Close Scope N_scope.
